@@ -302,6 +302,23 @@ CLAIMED = {
    design='4.C09'),
 }
 
+
+# sentences appended to the claims by later extensions (kept apart from the original texts so that the history stays readable)
+EXTRA_TEXT = {
+ 'C01': ' Route A table obligation `registry_perpoint_keys_shaped` over Gen/Registry (closure cells of the wrapper and one probe call per method, regenerated on every run): no public method hands back a flat per-point array and every 2-D reshape key is also un-sorted.',
+ 'C02': ' Route A table obligation `registry_perpoint_keys_sorted` over Gen/Registry (regenerated on every run from the imported package): every method that lets the wrapper sort declares every per-point output for un-sorting, so it inherits the equivariance theorem; when the obligation breaks the flagged methods are driven first, on larger data and with every single-parameter variant. The conditioning excuse is granted per output (an output is excused only if its own difference is within 1000x its own movement under the perturbation).',
+ 'C05': ' Further theorems: `_numba_banded_dot_banded` (all band counts and N, with the caller lemmas for `_banded_dot_banded` and the three calls of beads), `_quadratic_bezier` / `_quadratic_bezier_spline` (arbitrary argmin outcomes), `_interp_inplace` (through `_fill_skips` and `_find_peak_segments`), `_loess_solver` and the loop indices of the three loess kernels, and caller lemmas deriving each precondition from the guards of loess, the spline set-up, peak_filling, corner_cutting and the rolling-std padding; exact access traces of the kernels\' Python source against the models and precondition monitors on every kernel call made by the public methods.',
+ 'C06': ' The 2-D returned-pair certificates run with the data and the weights in every memory layout (C / Fortran order, transposed and strided views), independently.',
+ 'C10': ' Every 1-D method is also run on data with a 1e6 offset and little noise and on data scaled by 1e-6 / 1e6 in all configurations (a fall-back must be as accurate as the accelerated path, not only algebraically equal).',
+ 'C11': ' In the reconfiguration histories the real systems are USED in place between reconfigurations (add_diagonal + solve with and without overwrite_ab; solve_pspline), as the methods use them.',
+ 'C13': ' method_kwargs dictionaries are also given keys that shadow the optimizer\'s own arguments or that it treats specially (weights, alpha, tol, lam, max_iter, x_data), with the explicit argument omitted.',
+ 'C14': ' Rubberband: theorems `lowerHull_cert_sound` (the interpolant through a certified mask is <= the data, touches it at the vertices, is convex), `lowerHull_greatest` / `lowerHull_unique` (it is THE greatest convex minorant, whatever collinear points the mask keeps), `lowerHull_shift`, `rubberband_segments_interp`; the real baseline is compared with the model\'s exact np.interp through the returned mask (bit-exact at the vertices, a derived ulp bound elsewhere), per segment, with weights, and on shifted data.',
+ 'C17': ' collab_pls: planner model of every call it makes (first pass, final fits, overridden keys per method family, averaging order, error order) with theorems `collab_kwargs`, `collab_calls_average_dataset`, `collab_calls_average_weights`, `collab_final_fit_kwargs`, `collab_errors`, `collab_reported_weights_are_used`, `collab_single_dataset`; the Lean plan is executed with the real wrapped method and the calls the real collab_pls makes are recorded and compared with the plan (count, data, keyword names in order, values bit-exact).',
+ 'C18': ' 2-D theorems: `pad2d_shape`, `pad2d_interior`, `pad2d_rows_are_1d` / `pad2d_cols_are_1d` / `pad2d_all_rows_are_1d` (the 2-D result is the 1-D model applied along each axis, in either order: `extrap2d_corner_orders_agree`), `extrap2d_planar_exact` and `extrap2d_planar_clamped` (every entry, corners included, for every window combination), `extrap2d_window_one(_sides)`, and the argument resolution of pad_edges2d (`pad2d_args_*`); correspondence over every argument form (scalar / pair / four values, nested windows, malformed), single-row and single-column data, and against compositions of the real 1-D pad_edges.',
+ 'C19': ' Theorems `strategies_equal_first`, `strategies_equal`, `strategies_equal_loop`, `strategies_equal_loess` (the two memory strategies end in the same state for every interpretation of the scalar operations and every solver, for every max_iter), `baseline_written_iff`, `kernel_den_pos`, `poly_reproduction` (under the numeric-layer hypothesis that the local solver satisfies its normal equations); the real kernels\' Python source is compared with the model bit-exactly on the kernel vectors and in exact rationals on two passes; histories of loess calls on ONE re-used fitter (delta, total_points, poly_order, budget and strategy changing from call to call) against a fresh fitter.',
+ 'C20': ' individual_axes: planner model with theorems `individualAxes_plan`, `individualAxes_kwargs_pairing`, `individualAxes_errors`, `individualAxes_shape`, `individualAxes_one_axis_coords`, `individualAxes_two_is_one_then_one`, `individualAxes_reorder`; the plan is executed with the real 1-D methods and compared fit by fit. The degrees of freedom reported in the eigenbasis (`return_dof`) are recomputed densely from the system\'s own eigenvectors for the RETURNED weights.',
+}
+
 checks = []
 na = []
 for p in props:
@@ -315,7 +332,7 @@ for p in props:
             'evidence_file': f'evidence/{pid}.json',
             'replay_cmd_template': f'./check {pid} --replay {{path}}',
             'engine': 'lean4-proof+correspondence',
-            'level_claimed': {'category': 'proof', 'text': c['text'], 'design_ref': c['design']},
+            'level_claimed': {'category': 'proof', 'text': c['text'] + EXTRA_TEXT.get(pid, ''), 'design_ref': c['design']},
             'level_note': c['note'],
             'technique': c['technique'],
         })
